@@ -330,6 +330,24 @@ fn observe_skip(c: &StressCase, sl: &SkipList<u64, u64>, bd: &Board, owner: &Has
                 }
                 if fwd { it.next() } else { it.prev() }
             }
+            if fwd {
+                // the same iterator, off the end: one step back must reach the greatest key whose
+                // insert had returned before that step began (an append may have completed since the
+                // iteration ran off the end)
+                let done = Board::snap(&bd.completed);
+                let top = (0..wn).flat_map(|w| (0..done[w]).map(move |j| (w, j))).map(|(w, j)| key_of(c, w, j)).max();
+                it.prev();
+                let landed = if it.is_valid() { Some(*it.key()) } else { None };
+                if let Some(t) = top {
+                    match landed {
+                        Some(g) if g >= t => {}
+                        other => {
+                            bd.fail("stress-prev-after-end:missed", format!("reader {r}: prev() from the end of a forward iteration landed on {other:?} although the insert of {t} had returned before"));
+                            return;
+                        }
+                    }
+                }
+            }
             let after = Board::snap(&bd.started);
             let mut count = vec![0usize; wn];
             for k in seen.iter() {
